@@ -3,6 +3,7 @@ package props
 import (
 	"fmt"
 	"go/ast"
+	"go/types"
 	"math/big"
 
 	"gocv/ir"
@@ -202,6 +203,50 @@ func (c *Ctx) installBuiltins(ev *spec.Eval) {
 			}
 		}
 		return raw(smt.Resize(ev.Term(v), n))
+	}
+	// sizeof(x): size in bytes of x's static type
+	B["sizeof"] = func(ev *spec.Eval, a []ast.Expr) spec.TV {
+		v := ev.Eval(a[0])
+		if v.T == nil {
+			panic(spec.EvalError{Msg: "sizeof of untyped value"})
+		}
+		return spec.TV{V: big.NewInt(types.SizesFor("gc", "amd64").Sizeof(v.T)), T: nil}
+	}
+	// constval(n): an expr.Const struct value of n symbolic bytes
+	B["constval"] = func(ev *spec.Eval, a []ast.Expr) spec.TV {
+		tv := B["constleaf"](ev, a)
+		return spec.TV{V: tv.V.(sx.Iface).V, T: c.IR.Const}
+	}
+	// bytes(n): a fresh []byte of n symbolic bytes (capacity n)
+	B["bytes"] = func(ev *spec.Eval, a []ast.Expr) spec.TV {
+		n := constArg(ev, a[0], "length")
+		k := len(p.Ghost)
+		p.Ghost[fmt.Sprintf("b%d", k)] = nil
+		els := make([]sx.Val, n)
+		for i := range els {
+			els[i] = smt.Var(fmt.Sprintf("bytes%d.%d", k, i), smt.BV(8))
+		}
+		return spec.TV{V: p.NewSlice(types.Typ[types.Uint8], els), T: types.NewSlice(types.Typ[types.Uint8])}
+	}
+	// fresh(s): the backing store of s was allocated during the call
+	B["fresh"] = func(ev *spec.Eval, a []ast.Expr) spec.TV {
+		v := ev.Eval(a[0])
+		entry, _ := p.Ghost["entryNext"].(int)
+		switch x := v.V.(type) {
+		case sx.Slice:
+			if n, ok := x.Len.Uint64(); ok && n == 0 {
+				return spec.TV{V: smt.True}
+			}
+			return spec.TV{V: smt.BoolC(x.Obj > entry)}
+		case sx.Ptr:
+			return spec.TV{V: smt.BoolC(x.Obj > entry)}
+		}
+		panic(spec.EvalError{Msg: "fresh() of a value that is neither slice nor pointer"})
+	}
+	// sameobj(a, b): two slices share their backing array
+	B["sameobj"] = func(ev *spec.Eval, a []ast.Expr) spec.TV {
+		x, y := ev.Eval(a[0]).V.(sx.Slice), ev.Eval(a[1]).V.(sx.Slice)
+		return spec.TV{V: smt.BoolC(x.Obj == y.Obj && x.Obj != 0)}
 	}
 	B["isnil"] = func(ev *spec.Eval, a []ast.Expr) spec.TV {
 		v := ev.Eval(a[0])
